@@ -707,7 +707,7 @@ def run(ctx):
     ctx.prove_static("Props/C04.v", timeout=900)
     translate_and_prove(ctx)
     # 2. cases
-    n_total = 960 if ctx.quick else 9600
+    n_total = 960 if ctx.quick else 6400
     cases = [c for c in gen_cases(ctx, n_total)]
     keep = []
     for c in cases:
